@@ -464,8 +464,9 @@ def parse_url(url_text: bytes) -> list[Node]:
                 offset := offset + len(url.path),
             )
         )
+    if url_text[offset : offset + 1] == b"?":
+        offset += 1  # query starts with ?, even when it is empty
     if url.query:
-        offset += 1  # query starts with ?
         out.append(
             Node(
                 "network.url.query",
@@ -474,8 +475,9 @@ def parse_url(url_text: bytes) -> list[Node]:
                 end=(offset := offset + len(url.query)),
             )
         )
+    if url_text[offset : offset + 1] == b"#":
+        offset += 1  # fragment starts with #, even after an empty query
     if url.fragment:
-        offset += 1  # fragment starts with #
         out.append(
             Node(
                 "network.url.fragment",
